@@ -101,14 +101,17 @@ func (cm *CMap) parseCodeSpaceRange(content string) error {
 		return nil // No codespacerange section
 	}
 
-	endIdx := strings.Index(content[beginIdx:], "endcodespacerange")
+	// Search after the begin keyword: "…rangendcodespacerange" would otherwise
+	// match an end keyword that overlaps the begin keyword
+	sectionStart := beginIdx + len("begincodespacerange")
+	endIdx := strings.Index(content[sectionStart:], "endcodespacerange")
 	if endIdx == -1 {
 		return nil
 	}
-	endIdx += beginIdx
+	endIdx += sectionStart
 
 	// Extract section content
-	section := content[beginIdx+len("begincodespacerange") : endIdx]
+	section := content[sectionStart:endIdx]
 
 	// Parse the first code range to determine byte width
 	// Format: <low> <high>
@@ -167,14 +170,17 @@ func (cm *CMap) parseBfChar(content string) error {
 		}
 		beginIdx += start
 
-		endIdx := strings.Index(content[beginIdx:], "endbfchar")
+		// Search after the begin keyword so that an end keyword overlapping it
+		// (e.g. "beginbfrangendbfrange") cannot produce an inverted slice
+		sectionStart := beginIdx + len("beginbfchar")
+		endIdx := strings.Index(content[sectionStart:], "endbfchar")
 		if endIdx == -1 {
 			break
 		}
-		endIdx += beginIdx
+		endIdx += sectionStart
 
 		// Extract section content
-		section := content[beginIdx+len("beginbfchar") : endIdx]
+		section := content[sectionStart:endIdx]
 
 		// Parse mappings
 		if err := cm.parseBfCharSection(section); err != nil {
@@ -261,14 +267,17 @@ func (cm *CMap) parseBfRange(content string) error {
 		}
 		beginIdx += start
 
-		endIdx := strings.Index(content[beginIdx:], "endbfrange")
+		// Search after the begin keyword so that an end keyword overlapping it
+		// (e.g. "beginbfrangendbfrange") cannot produce an inverted slice
+		sectionStart := beginIdx + len("beginbfrange")
+		endIdx := strings.Index(content[sectionStart:], "endbfrange")
 		if endIdx == -1 {
 			break
 		}
-		endIdx += beginIdx
+		endIdx += sectionStart
 
 		// Extract section content
-		section := content[beginIdx+len("beginbfrange") : endIdx]
+		section := content[sectionStart:endIdx]
 
 		// Parse mappings
 		if err := cm.parseBfRangeSection(section); err != nil {
